@@ -102,12 +102,12 @@ theorem time_periodic_gen (start stop : Option Nat) (t : Nat) :
   rw [gen_matchTime ⟨start, stop⟩, gen_matchTime ⟨start, stop⟩]
   exact (time_periodic ⟨start, stop⟩ t).1
 
-/-- Week-day membership for the regenerated code: exactly the listed days. -/
+/-- PIN OF THE GENERATED TEXT (not a restated property).  Week-day membership for the regenerated code: exactly the listed days. -/
 theorem weekday_member_gen (r : RouteWeekday) (t : Nat) :
     genRouteWeekdayMatch r.days (TimeWindow.weekdayOf t) = true ↔ TimeWindow.weekdayOf t ∈ r.days := by
   simp [genRouteWeekdayMatch]
 
-/-- `not_in_range` for the regenerated arms: the negated form is the complement, whatever `contains` is. -/
+/-- PIN OF THE GENERATED TEXT (not a restated property).  `not_in_range` for the regenerated arms: the negated form is the complement, whatever `contains` is. -/
 theorem not_in_range_gen {κ β : Type} (contains : κ → β → Bool) (c : κ) (a : β) :
     genRouteIpMatchNotInRange contains c a = !genRouteIpMatchInRange contains c a := rfl
 
@@ -162,7 +162,7 @@ theorem fallback_any_host_gen (E : Env) (hE : E.alwaysAnyHost = false) (R : List
           ¬ ∃ r' ∈ R, hostBound r' = true ∧ schemeKey r' = schemeKey r ∧ triggersOk E r' q = true) := by
   rw [(match_exact_gen E R hR q).2 r, fallback_any_host E hE R r q]
 
-/-- **The any-host clause, closed form of the translated `HostMatcher::match_request`** (any next layer, any lookups):
+/-- PIN OF THE GENERATED TEXT (not a restated property).  **The any-host clause, closed form of the translated `HostMatcher::match_request`** (any next layer, any lookups):
 `bound` = the routes of the matching tree buckets followed by those of the static bucket; the any-host bucket is
 appended iff `always_match_any_host` or `bound` is empty. -/
 theorem host_any_clause_gen {ρ μ η : Type} (next : μ → List ρ) (treeFind : η → List μ) (staticGet : η → Option μ)
@@ -175,7 +175,7 @@ theorem host_any_clause_gen {ρ μ η : Type} (next : μ → List ρ) (treeFind 
       if always || bound.isEmpty then bound ++ next anyHost else bound :=
   genHostMatchRequest_closed next treeFind staticGet anyHost always host bound hb
 
-/-- **The method clause, closed form of the translated `MethodMatcher::match_request`**: the any-method bucket, then the
+/-- PIN OF THE GENERATED TEXT (not a restated property).  **The method clause, closed form of the translated `MethodMatcher::match_request`**: the any-method bucket, then the
 bucket of the request method, then every exclude bucket whose list does not contain the method. -/
 theorem method_clause_gen {ρ μ η ε : Type} (next : μ → List ρ) (listed : ε → η → Bool) (methodsGet : η → Option μ)
     (excl : List (ε × μ)) (anyMethod : μ) (m : η) :
@@ -186,7 +186,7 @@ theorem method_clause_gen {ρ μ η ε : Type} (next : μ → List ρ) (listed :
   simp only [methodLoop_eq]
   cases methodsGet m <;> simp
 
-/-- **The ip clause incl. report-once, closed form of the translated `IpMatcher::match_request`**: without a remote
+/-- PIN OF THE GENERATED TEXT (not a restated property).  **The ip clause incl. report-once, closed form of the translated `IpMatcher::match_request`**: without a remote
 address only the no-ip bucket; otherwise every bucket whose range matches contributes the routes whose id is not
 listed yet (`pushNew`). -/
 theorem ip_clause_gen {μ κ α : Type} (next : μ → List Route) (matchIp : κ → α → Bool) (matchers : List (κ × μ))
@@ -200,7 +200,7 @@ theorem ip_clause_gen {μ κ α : Type} (next : μ → List Route) (matchIp : κ
   | none => rfl
   | some a => simp only [ipLoop1_eq]
 
-/-- **The scheme clause, closed form of the translated `SchemeMatcher::match_request`.** -/
+/-- PIN OF THE GENERATED TEXT (not a restated property).  **The scheme clause, closed form of the translated `SchemeMatcher::match_request`.** -/
 theorem scheme_clause_gen {ρ μ η : Type} (next : μ → List ρ) (schemesGet : η → Option μ) (anyScheme : μ)
     (scheme : Option η) :
     Rio.Consts.genSchemeMatchRequest next schemesGet anyScheme scheme =
